@@ -78,7 +78,7 @@ class Scheduler:
     def wait_turn(self, t):
         with self.cond:
             while self.current != t:
-                if not self.cond.wait(timeout=20):
+                if not self.cond.wait(timeout=90):
                     self.stuck = True
                     self.current = t
                     return
@@ -133,7 +133,7 @@ def run_threads(h, grid, texts, plan, files):
     for th in ths:
         th.start()
     for th in ths:
-        th.join(60)
+        th.join(200)
     return results, sched
 
 
@@ -256,8 +256,14 @@ def run(ctx):
         ctx.count('schedule:%d-threads' % nth)
         res, sch = run_threads(h, small, texts, plan, files)
         if sch.stuck:
-            ctx.violation('harness-error', 'the scheduler timed out (a thread blocked outside a traced line)', {'plan': plan[:3], 'filters': texts})
-            return
+            # a turn was not taken within 90 s (machine overloaded, or a thread blocked on a lock held by a paused thread):
+            # the schedule is not conclusive; try it once more with fresh filters, then leave it out (counted in the evidence)
+            fl = fresh(nth)
+            texts = [t for t, _ in fl]
+            res, sch = run_threads(h, small, texts, plan, files)
+            if sch.stuck:
+                ctx.count('schedule:inconclusive')
+                continue
         for t in range(nth):
             if res[t] != reference(fl[t][1]):
                 ctx.violation('impl-counterexample', 'thread %d evaluating %r got %r; alone it gets %r. Schedule (thread, line steps): %r, other filters %r'
